@@ -168,6 +168,9 @@ def std_value(kind):
         'string-int': ('string', N(T('2'))),
         'list': ('list', [N(T('la')), S(T('l b'))]),
         'list-empty': ('list', []),
+        # empty elements first, in the middle and last: every element counts when the list is rendered in a string
+        'list-lead-empty': ('list', [S(), N(T('la')), S(), S(T('l b')), S()]),
+        'list-only-empty': ('list', [S(), H('')]),
         'path': ('path', {'rel': 'tmp', 'name': N(T('pv'))}),
         'path-home': ('path', {'rel': 'home', 'name': N(T('ph'))}),
         'integer-matcher': ('integer-matcher', ['cmp', '>=', N(T('2'))]),
@@ -185,6 +188,7 @@ def std_value(kind):
 
 DEF_KINDS = ('string', 'string-int', 'list', 'list-empty', 'path', 'path-home') + M.LOGIC_TYPES
 SPECIALS = ('builtin-string', 'builtin-path', 'builtin-path-home', 'undefined')
+EXTRA_DEF_KINDS = ('list-lead-empty', 'list-only-empty')  # matrix: placement 'before' only
 SPECIAL_NAME = {'builtin-string': 'TAB', 'builtin-path': 'EXACTLY_TMP', 'builtin-path-home': 'EXACTLY_HOME',
                 'undefined': 'UNDEF'}
 
@@ -252,6 +256,17 @@ def _ctx_table():
     c['text-matcher-eval'] = lambda X, k: [{'k': 'tm', 'id': k, 'tm': ref(X)}]
     c['integer-matcher-eval'] = lambda X, k: [{'k': 'im', 'im': ['or', [ref(X), ['cmp', '==', N(T('99'))]]]}]
     c['pgmname'] = lambda X, k: [defn('program', y(k), ['sys', N(R(X)), []])]
+    # the reference comes AFTER an operand that already decides the value of the && / || chain (it is never
+    # evaluated, but it is still a reference whose definition and type must be checked)
+    c['lm-after-deciding'] = lambda X, k: [filest(k, text_via(['filter', ['or', [
+        ['line-num', ['cmp', '==', N(T('1'))]], ['const', True], ref(X)]]]))]
+    c['lm-def-after-deciding'] = lambda X, k: [defn('line-matcher', y(k), ['and', [
+        ['const', False], ['contents', ['matches', N(T('b'))]], ref(X)]])]
+    c['im-after-deciding'] = lambda X, k: [filest(k, text_via(['filter', ['line-num', ['or', [['const', True], ref(X)]]]]))]
+    c['tm-def-after-deciding'] = lambda X, k: [defn('text-matcher', y(k), ['and', [['const', False], ['is-empty'], ref(X)]])]
+    c['fm-def-after-deciding'] = lambda X, k: [defn('file-matcher', y(k), ['or', [['const', True], ref(X, 'a')]])]
+    c['fsm-def-after-deciding'] = lambda X, k: [defn('files-matcher', y(k), ['and', [['const', False], ref(X)]])]
+    c['tm-eval-after-deciding'] = lambda X, k: [{'k': 'tm', 'id': k, 'tm': ['or', [['const', True], ref(X)]]}]
     c['fc-name'] = lambda X, k: [defn('files-condition', y(k), ['lit', [[N(R(X)), ['type', 'file']]]])]
     c['fs-ts'] = lambda X, k: [defn('files-source', y(k), ['lit', [['file', N(T('fa')), ['ref', X, 'a', None]]]])]
     return c
@@ -260,7 +275,8 @@ def _ctx_table():
 CONTEXTS = _ctx_table()
 CONTEXT_NAMES = tuple(CONTEXTS)
 ASSERT_ONLY = ('file-matcher-eval', 'file-matcher-eval-dir', 'files-matcher-eval', 'files-matcher-eval-sub',
-               'files-condition-eval', 'fc-fm-eval', 'text-matcher-eval', 'integer-matcher-eval')
+               'files-condition-eval', 'fc-fm-eval', 'text-matcher-eval', 'integer-matcher-eval',
+               'tm-eval-after-deciding')
 ACT_CONTEXTS = ('arg-soft', 'arg-naked', 'arg-elem', 'arg-eol', 'program')  # statement kinds that can be the [act] program
 
 # which types a context admits *directly* (hard-coded from the manual; used only to enumerate chains cheaply --
@@ -283,6 +299,10 @@ DIRECT_OK = {
     'files-matcher-eval': {'files-matcher'}, 'files-matcher-eval-sub': {'files-matcher'},
     'files-condition-eval': {'files-condition'}, 'fc-fm-eval': {'file-matcher'}, 'text-matcher-eval': {'text-matcher'},
     'integer-matcher-eval': {'integer-matcher'},
+    'lm-after-deciding': {'line-matcher'}, 'lm-def-after-deciding': {'line-matcher'},
+    'im-after-deciding': {'integer-matcher'}, 'tm-def-after-deciding': {'text-matcher'},
+    'fm-def-after-deciding': {'file-matcher'}, 'fsm-def-after-deciding': {'files-matcher'},
+    'tm-eval-after-deciding': {'text-matcher'},
 }
 assert set(DIRECT_OK) == set(CONTEXTS)
 
@@ -377,7 +397,7 @@ def cases(tier, seed):
                 if pl.startswith('act') and c not in ACT_CONTEXTS:
                     continue
                 yield {'part': 'matrix', 'd': d, 'c': c, 'pl': pl}
-        for d in SPECIALS:
+        for d in SPECIALS + EXTRA_DEF_KINDS:
             yield {'part': 'matrix', 'd': d, 'c': c, 'pl': 'before'}
             if c in ACT_CONTEXTS:
                 yield {'part': 'matrix', 'd': d, 'c': c, 'pl': 'act-after-setup'}
